@@ -3,7 +3,7 @@ PROP = {
     "harness": "c08",
     "driver": "c08",
     "n_quick": 300,
-    "n_thorough": 20000,
+    "n_thorough": 60000,
     "harness_timeout": 2400,
     "trusted": [
         "e2e rig harness/cmd/c08 (public API only, no hook): a real hsmsss connection over net.Pipe via WithDialer / WithListener, a raw-frame peer, a handler log; per frame the replies are fenced by a Linktest.req barrier (sequential recv goroutine + FIFO async sender)",
@@ -11,8 +11,10 @@ PROP = {
     ],
     "assumptions": [
         "atomicity: one received frame = one step; CommitSelected / CommitSelectLost are synchronous on the recv goroutine; a control transaction closes in the step in which its response is routed (the waiter's deregistration runs on another goroutine shortly after: the harness fences it with an orphan-response probe and records only the probe that was answered)",
-        "the supervisor does not move the logical state by itself while the link is up: violated by the C05 echo-replay finding, which the e2e pass reproduces with protocol-visible consequences (known finding C08-deselect-undone)",
+        "the supervisor does not move the logical state by itself while the link is up (T7 / linktest / Close aside, which the quiet link excludes): this is C05's theorem; before repo commit 737422e the e2e pass reproduced its violation with protocol-visible consequences (finding C08-deselect-undone, now fixed) and still recognises it by name",
         "quiet link: auto-linktest off and T3/T6/T7 at 120 s, so the only control transaction the library opens is the active side's Select.req; data transactions opened by local senders (C06) are outside this model",
+        "S9F1 is a data message of this side and passes the send gate (C07): if the peer pipelines a Deselect.req right behind the offending data frame, the queued S9F1 may be dropped at the write boundary. Model and table describe the un-pipelined outcome; the pipelined pass never puts a deselecting frame behind an S9F1 in the same burst",
+        "reading adopted: a transaction is identified by its system bytes (E37 8.2.6.8), so a Deselect.rsp / Linktest.rsp / Reject.req / data reply carrying the system bytes of this side's open Select.req is the (failed) answer to that Select and ends the link like a refusing Select.rsp; it is not a 'response with no open transaction'",
         "frames are well-framed (length >= 10, below the frame cap): framing errors are C03/C04",
         "the second-connection theorem is about one listener generation of the acceptor model; its tie is the scripted scenario (harness-owned listener)",
     ],
